@@ -755,6 +755,10 @@ class Variogram(object):
             The American Statistician, 30(4), 181-183.
 
         """
+        # a number of lag classes derived by a previous binning method is
+        # outdated as soon as a method with a fixed number is selected
+        restore_n_lags = isinstance(bin_func, str)
+
         # handle strings
         if isinstance(bin_func, str):
             fname = bin_func.lower()
@@ -770,6 +774,7 @@ class Variogram(object):
                 # reset lags for adjusting algorithms
                 if fname not in ('kmeans', 'ward', 'stable_entropy'):
                     self._n_lags = None
+                    restore_n_lags = False
 
                 # use the wrapper for all but even and uniform
                 self._bin_func = self._bin_func_wrapper
@@ -785,6 +790,11 @@ class Variogram(object):
 
         else:
             raise AttributeError('bin_func has to be of type string, iterable or callable.')
+
+        # go back to the number of lag classes the user asked for
+        if restore_n_lags and \
+                getattr(self, '_n_lags_passed_value', None) is not None:
+            self._n_lags = self._n_lags_passed_value
 
         # store the name
         self._bin_func_name = bin_func_name
